@@ -24,7 +24,8 @@ fn table() -> Arc<Table> {
 
 #[derive(Clone, Debug, Hash, PartialEq, Eq)]
 pub enum Act {
-    Init(usize, bool),
+    /// base index, form (0 = FlatEx::parse, 1 = DeepEx::parse, 2 = FlatEx::parse_wo_compile for base and replacements)
+    Init(usize, u8),
     /// replacement choice per current variable (sorted order): 0 = keep, k = pool[k-1]
     Subs(Vec<u8>),
 }
@@ -49,12 +50,12 @@ fn subst(t: &Tree, map: &dyn Fn(&str) -> Option<Tree>) -> Tree {
 impl SubsModel {
     /// replay on the real objects with the reference tree in lock-step
     fn replay(&self, hist: &[Act]) -> (Result<(Vec<String>, Sym, String), String>, Tree, u64) {
-        let Act::Init(i, deep) = &hist[0] else { unreachable!() };
+        let Act::Init(i, form) = &hist[0] else { unreachable!() };
         let mut reft = self.bases[*i].1.clone();
         let mut steps = 0u64;
         macro_rules! go {
-            ($ty:ty) => {{
-                let mut cur = match <$ty>::parse(self.bases[*i].0) {
+            ($ty:ty, $parse:ident) => {{
+                let mut cur = match <$ty>::$parse(self.bases[*i].0) {
                     Ok(e) => e,
                     Err(e) => return (Err(format!("base rejected: {}", e.msg())), reft, steps),
                 };
@@ -75,7 +76,7 @@ impl SubsModel {
                         }
                     };
                     let pool = self.pool.clone();
-                    let mut sub = |v: &str| pick(v).map(|k| <$ty>::parse(pool[k].0).expect("pool parses"));
+                    let mut sub = |v: &str| pick(v).map(|k| <$ty>::$parse(pool[k].0).expect("pool parses"));
                     steps += 1;
                     cur = match cur.subs(&mut sub) {
                         Ok(e) => e,
@@ -91,10 +92,10 @@ impl SubsModel {
                 }
             }};
         }
-        if *deep {
-            go!(SDeep)
-        } else {
-            go!(SFlat)
+        match *form {
+            1 => go!(SDeep, parse),
+            2 => go!(SFlat, parse_wo_compile),
+            _ => go!(SFlat, parse),
         }
     }
 }
@@ -102,7 +103,16 @@ impl SubsModel {
 impl Hist for SubsModel {
     type Act = Act;
     fn roots(&self) -> Vec<Vec<Act>> {
-        (0..self.bases.len()).flat_map(|i| [vec![Act::Init(i, false)], vec![Act::Init(i, true)]]).collect()
+        // (the uncompiled form differs from the compiled one only if the text contains a literal)
+        (0..self.bases.len())
+            .flat_map(|i| {
+                let mut v = vec![vec![Act::Init(i, 0)], vec![Act::Init(i, 1)]];
+                if self.bases[i].0.contains(|c: char| c.is_ascii_digit()) {
+                    v.push(vec![Act::Init(i, 2)]);
+                }
+                v
+            })
+            .collect()
     }
     fn enabled(&self, hist: &[Act], out: &mut Vec<Act>) {
         // current variables follow from the reference tree
@@ -156,9 +166,9 @@ impl Hist for SubsModel {
         self.max_len
     }
     fn describe(&self, hist: &[Act]) -> Value {
-        let Act::Init(i, deep) = &hist[0] else { unreachable!() };
+        let Act::Init(i, form) = &hist[0] else { unreachable!() };
         let mut reft = self.bases[*i].1.clone();
-        let mut steps = vec![format!("{}::parse({:?})", if *deep { "DeepEx" } else { "FlatEx" }, self.bases[*i].0)];
+        let mut steps = vec![format!("{}({:?})", ["FlatEx::parse", "DeepEx::parse", "FlatEx::parse_wo_compile"][*form as usize], self.bases[*i].0)];
         for a in &hist[1..] {
             if let Act::Subs(choice) = a {
                 let names = reft.vars();
@@ -179,8 +189,8 @@ impl Hist for SubsModel {
     }
     fn run(&self, hist: &[Act]) -> Outcome {
         set_table(&self.table);
-        let Act::Init(_, deep) = &hist[0] else { unreachable!() };
-        let form = if *deep { "deep" } else { "flat" };
+        let Act::Init(_, form0) = &hist[0] else { unreachable!() };
+        let form = ["flat", "deep", "flat-uncompiled"][*form0 as usize];
         let (res, reft, steps) = self.replay(hist);
         let mut out = Outcome { key: String::new(), bad: vec![], terminal: false, steps };
         match res {
@@ -230,11 +240,6 @@ fn bases_of(al: Alphabet, sizes: &[(usize, usize)], t: &Table) -> Vec<(&'static 
         })
         .filter(|(_, tr)| tr.has_var())
         .collect()
-}
-
-pub fn replay(case: &Value) -> i32 {
-    println!("history: {}", case["history"]);
-    0
 }
 
 pub fn run(tier: Tier) -> i32 {
